@@ -258,6 +258,13 @@ func mkCustom() map[string]*CustomOp {
 			if err3 != nil || err4 != nil || v3 != int64(41) || v4 != int64(41) {
 				return nil, fmt.Errorf("nested deep evaluation on the same context gave %v/%v and %v/%v instead of 41", v3, err3, v4, err4)
 			}
+			// ... and one whose operators have one, three and nine operands (argument slices of every size class)
+			wide := nestedWideSubExpr()
+			v5, err5 := wide.Eval(c)
+			v6, err6 := wide.TryEval(c)
+			if err5 != nil || err6 != nil || v5 != int64(24) || v6 != int64(24) {
+				return nil, fmt.Errorf("nested wide evaluation on the same context gave %v/%v and %v/%v instead of 24", v5, err5, v6, err6)
+			}
 			return x + 3, nil
 		}})
 	m := map[string]*CustomOp{}
@@ -306,6 +313,24 @@ func nestedDeepSubExpr() *eval.Expr {
 		nestedDeep = e
 	})
 	return nestedDeep
+}
+
+var (
+	nestedWideOnce sync.Once
+	nestedWide     *eval.Expr
+)
+
+// nestedWideSubExpr: (+ (if (not false) 4 0) 1 (* 2 3 1) (- (+ 1 1 1 1 1 1 1 1 1) 4) 8) = 4+1+6+5+8 = 24, without
+// optimizations; the first operator it applies has one operand, the later ones three, nine and five
+func nestedWideSubExpr() *eval.Expr {
+	nestedWideOnce.Do(func() {
+		e, err := eval.Compile(eval.NewConfig(eval.Optimizations(false)), "(+ (if (not false) 4 0) 1 (* 2 3 1) (- (+ 1 1 1 1 1 1 1 1 1) 4) 8)")
+		if err != nil {
+			panic(err)
+		}
+		nestedWide = e
+	})
+	return nestedWide
 }
 
 // names declared stateless in StatelessOperators ("sq" is declared but never registered)
